@@ -335,6 +335,86 @@ func genC13(e *emitter) {
 	fmt.Fprintf(&b, "  errGuardReturns := %s,\n  okGuardReturns := %s,\n  varAssignments := %d,\n  redirectCalls := %d,\n",
 		leanBool(errGuard), leanBool(okGuard), nAssign, nRedirect)
 	fmt.Fprintf(&b, "  redirectFmt := %s,\n  redirectFirstArg := %s,\n  orderOK := %s }\n", c13Chars(redirectFmt), c13Chars(redirectFirst), leanBool(orderOK))
+
+	// every statement of the package that writes a client's redirect lists or the client table: the
+	// handlers must see what the configuration file says (yaml fills the structs; nothing else may)
+	type cfgWrite struct {
+		Func string `json:"func"`
+		Pos  string `json:"pos"`
+		Src  string `json:"src"`
+	}
+	var writes []cfgWrite
+	isClientField := func(x ast.Expr) bool {
+		for {
+			switch y := x.(type) {
+			case *ast.IndexExpr:
+				x = y.X
+				continue
+			case *ast.ParenExpr:
+				x = y.X
+				continue
+			case *ast.StarExpr:
+				x = y.X
+				continue
+			}
+			break
+		}
+		sel, ok := x.(*ast.SelectorExpr)
+		if !ok {
+			return false
+		}
+		switch sel.Sel.Name {
+		case "AllowedRedirectURLRE", "AllowedRedirectDomains", "OpenIDConnectIDP":
+			return true
+		case "Client":
+			return strings.HasSuffix(p.str(sel.X), "OpenIDConnectIDP")
+		}
+		return false
+	}
+	p.eachFunc(func(fd *ast.FuncDecl) {
+		// local aliases of the client table (clients := state.Config.OpenIDConnectIDP.Client; clients[i].X = …)
+		alias := map[string]bool{}
+		ast.Inspect(fd.Body, func(n ast.Node) bool {
+			if as, ok := n.(*ast.AssignStmt); ok && len(as.Lhs) == len(as.Rhs) {
+				for i, r := range as.Rhs {
+					if id, ok := as.Lhs[i].(*ast.Ident); ok && strings.Contains(p.str(r), "OpenIDConnectIDP") {
+						alias[id.Name] = true
+					}
+				}
+			}
+			return true
+		})
+		ast.Inspect(fd.Body, func(n ast.Node) bool {
+			as, ok := n.(*ast.AssignStmt)
+			if !ok {
+				return true
+			}
+			for _, l := range as.Lhs {
+				hit := isClientField(l)
+				if ix, ok := l.(*ast.IndexExpr); ok && !hit {
+					if id, ok := ix.X.(*ast.Ident); ok && alias[id.Name] {
+						hit = true
+					}
+				}
+				if hit {
+					writes = append(writes, cfgWrite{fd.Name.Name, p.pos(as), p.str(as)})
+					break
+				}
+			}
+			return true
+		})
+	})
+	b.WriteString("\n/-- every assignment in cmd/keymasterd to a client's redirect lists or to the client table (function, source) -/\n")
+	b.WriteString("def clientConfigWrites : List (String × List Char) := [\n")
+	for i, w := range writes {
+		sep := ","
+		if i == len(writes)-1 {
+			sep = ""
+		}
+		fmt.Fprintf(&b, "  (%s, %s)%s  -- %s\n", leanStr(w.Func), c13Chars(w.Src), sep, w.Pos)
+	}
+	b.WriteString("]\n")
+	e.facts["c13_client_config_writes"] = writes
 	b.WriteString("\nend KM.Gen.C13\n")
 	e.lean("C13.lean", b.String())
 	af["lookup"], af["validate"], af["redirect_fmt"], af["redirect_first_arg"] = lookupCall, validateCall, redirectFmt, redirectFirst
